@@ -2,7 +2,7 @@
 REG = dict(
     engine='E1-enum',
     technique='bounded-exhaustive enumeration of syntax trees x layouts (every <=k-gap deviation from the canonical layout over an 8-separator alphabet, string-literal content variants), differential oracle on the real formatter and the real parser',
-    text='Programs: quick = every production over 5 leaves (1906 depth-1 trees), a reduced depth-2 set (over 7 representative children), 58 representatives incl. a string literal in every literal position, and a definition-level set of 682 programs (function/method signatures whose line length is swept across the 100-column wrap limit with 0-3 parameters, every item kind with optional parts on/off, doc comments, all ordered pairs of 12 items); thorough = the full C33 depth-1 (8483) and depth-2 (64774) sets and 2202 definition programs (lengths 95-107, 0-5 parameters). Each program is rendered under every layout with <=1 gap (thorough: <=2 gaps for the representative, string-variant-of-representative and small-definition groups) deviating from the canonical layout, gap alphabet {glued, 1 space, 3 spaces, newline, newline+indent, blank lines, line comment, tab} incl. the gaps before the first and after the last token, and with every string literal (each literal position, and all at once) replaced by multi-line / brace-at-line-start / `//` / blank-line contents. Layouts the real parser does not map to the canonical tree are dropped and counted. Oracle on format(layout): parses without errors; structurally equal tree (the parser\'s own structural equality: identifiers, literal values, string contents, doc comments; positions, ids and comma positions ignored), same ordered comment texts, and the same text once whitespace and commas are erased. Exhaustive within these bounds.',
+    text='Programs: quick = every production over 5 leaves (1906 depth-1 trees), a reduced depth-2 set (over 7 representative children), 58 representatives incl. a string literal in every literal position, and a definition-level set of 682 programs (function/method signatures whose line length is swept across the 100-column wrap limit with 0-3 parameters, every item kind with optional parts on/off, doc comments, all ordered pairs of 12 items); thorough = the full C33 depth-1 (8483) and depth-2 (64774) sets and 2202 definition programs (lengths 95-107, 0-5 parameters). Each program is rendered under every layout with <=1 gap (thorough: <=2 gaps for the representative, string-variant-of-representative and small-definition groups) deviating from the canonical layout, gap alphabet {glued, 1 space, 3 spaces, newline, newline+indent, blank lines, line comment, tab} incl. the gaps before the first and after the last token, plus two line comments whose text looks like code (`// a = b`, `// { " (`) in every gap next to `=`, `:`, `{`, `,`, `=>`, `+=`, `-=` (quick: not in the depth-2 and string-variant groups), plus a non-ASCII variant (a leading `// é😀` comment line and é😀 in every string literal and comment) of the representatives, the definition programs and the depth-1 trees (quick: every 4th definition program and every 3rd depth-1 tree with a type annotation, comma or `=`), and with every string literal (each literal position, and all at once) replaced by multi-line / brace-at-line-start / `//` / blank-line contents. Layouts the real parser does not map to the canonical tree are dropped and counted. Oracle on format(layout): parses without errors; structurally equal tree (the parser\'s own structural equality: identifiers, literal values, string contents, doc comments; positions, ids and comma positions ignored), same ordered comment texts, and the same text once whitespace and commas are erased. Exhaustive within these bounds.',
     note='The parser is trusted as the judge of "same tree" on both sides (it is checked against the printer by C33). Layouts with more simultaneous deviations than the bound, gap separators outside the alphabet (CR, form feed, block comments do not exist) and trees deeper than the sets are not covered.',
     design_ref='DESIGN.md §6 C17 / C18',
 )
@@ -69,6 +69,20 @@ def base_groups(ctx, full_depth2=True):
     if not ok:
         raise Machinery("no string-literal variant parsed")
     groups.append(("string-variants", ok, 1))
+    # non-ASCII variants: a leading `// é😀` comment line and é😀 in every string literal and comment, so that byte offsets and
+    # character offsets differ everywhere the spacing phases look. Quick: every representative, every fourth definition program
+    # and every third of the depth-1 trees that have a type annotation, a comma or an `=` (the tokens whose spacing is rewritten).
+    if quick:
+        spaced = [b for b in b1 if any(p in (":", ",", "=", "+=", "-=", "=>") for p in b.pieces)]
+        na_src = reps + items[::4] + spaced[::3]
+    else:
+        na_src = reps + items + b1
+    na_ok, na_rejected = layout.derive(ctx, [layout.nonascii_leading_variant(b) for b in na_src])
+    if na_rejected:
+        ctx.outcome("non-ascii variant:canonical text does not parse (dropped)", na_rejected)
+    if not na_ok:
+        raise Machinery("no non-ASCII variant parsed")
+    groups.append(("non-ascii", na_ok, 1))
     if not quick:
         rep_labels = {r.label for r in reps}
         small = [b for b in ok if b.label in rep_labels]
@@ -81,6 +95,11 @@ def base_groups(ctx, full_depth2=True):
         ctx.cap(f"development restriction groups={only} stride={stride}")
         groups = [(g, bs[::stride], k) for g, bs, k in groups if not only or g in only.split(",")]
     return groups
+
+
+def token_comments_for(gname, quick):
+    """Whether the comment separators with code-like text are tried in this group (quick: not in the two largest groups)."""
+    return not (quick and gname in ("depth2", "string-variants"))
 
 
 def variant_class(b):
@@ -142,7 +161,7 @@ class FormatCache:
 def run(ctx):
     groups = base_groups(ctx)
     cache = FormatCache(ctx, ["comments"])
-    n_layouts = n_same = n_changed = n_comment = n_multiline = n_wrapped = n_jobs = n_tree_jobs = 0
+    n_layouts = n_same = n_changed = n_comment = n_multiline = n_wrapped = n_jobs = n_tree_jobs = n_token_comment = n_nonascii_changed = 0
     status = {}
     for gname, bases, k in groups:
         ctx.bound(f"{gname}: programs", len(bases))
@@ -163,7 +182,7 @@ def run(ctx):
                 judge(ctx, cache, gname, b, d, t, r, (id(b), r["formatted"]) in differs)
             pending = []
 
-        for b, d, t, r, st in layout.explore(ctx, bases, k, ["comments", "format"]):
+        for b, d, t, r, st in layout.explore(ctx, bases, k, ["comments", "format"], token_comments=token_comments_for(gname, ctx.quick)):
             n_layouts += 1
             n_jobs += 1
             status[st] = status.get(st, 0) + 1
@@ -178,9 +197,13 @@ def run(ctx):
                 n_comment += 1
             if b.variant.startswith(("multi-line", "brace-line", "blank-lines")):
                 n_multiline += 1
+            if d and d[0][1] in layout.TOKEN_COMMENT_GAPS:
+                n_token_comment += 1
             if F == t:
                 continue
             n_changed += 1
+            if b.variant == "non-ascii":
+                n_nonascii_changed += 1
             if gname.startswith("definitions") and F.count("\n") > t.count("\n") + 1:
                 n_wrapped += 1
             if len(ctx.cov["samples"]) < 3 and d and n_changed % 1000 == 7:
@@ -196,8 +219,11 @@ def run(ctx):
     ctx.outcome("layouts with comments", n_comment)
     ctx.outcome("layouts with a multi-line string literal", n_multiline)
     ctx.outcome("signatures wrapped", n_wrapped)
-    if n_changed == 0 or n_comment == 0 or n_multiline == 0 or n_wrapped == 0:
-        raise Machinery(f"vacuous exploration: changed={n_changed} comments={n_comment} multiline={n_multiline} wrapped={n_wrapped}")
+    ctx.outcome("layouts with a code-like comment next to a spacing token (same tree)", n_token_comment)
+    ctx.outcome("non-ASCII layouts the formatter changed", n_nonascii_changed)
+    if n_changed == 0 or n_comment == 0 or n_multiline == 0 or n_wrapped == 0 or n_token_comment == 0 or n_nonascii_changed == 0:
+        raise Machinery(f"vacuous exploration: changed={n_changed} comments={n_comment} multiline={n_multiline} wrapped={n_wrapped} "
+                        f"code-like comments={n_token_comment} non-ascii changed={n_nonascii_changed}")
     if status.get("tree-changed", 0) == 0 or status.get("parse-error", 0) == 0:
         raise Machinery("no layout was rejected by the parser: the layout classifier is not looking at the real parse")
     ctx.add(states=n_same, transitions=n_jobs + cache.jobs + n_tree_jobs, nontrivial=n_changed)
